@@ -294,6 +294,8 @@ def concrete_grow_family(htu, tier):
                         if re_ev or 'data' in st:
                             return '%s reallocates / moves the storage other threads are using' % what, n
                         continue
+                    if dl == 0 and not re_ev and 'data' not in st:
+                        continue        # nothing to allocate: the descriptor may be rewritten with the same values
                     if len(re_ev) != 1 or re_ev[0][1][1] != (pg + dl) * 65536:
                         return '%s requests %r bytes from realloc; %d pages need %d bytes' % (what, [e[1][1] for e in re_ev], pg + dl, (pg + dl) * 65536), n
                     if dl:
